@@ -3,6 +3,7 @@ package main
 import (
 	"fmt"
 	"go/ast"
+	"go/token"
 	"go/types"
 	"sort"
 	"strings"
@@ -24,7 +25,7 @@ func init() {
 		Level: "other",
 		Explanation: "structural agreement between the Redis and the Memory map brokers, decided from source: (R1) the fields of MapPublishOptions/MapRemoveOptions/MapReadStateOptions/MapReadStreamOptions read by each implementation are the same set up to a frozen table of explained differences; (R2) ARGV/KEYS arity of the eight map scripts at every Exec site, and the two call sites of the add script agree; (R3) the suppression reasons the add script returns are exactly the Go SuppressReason constants and are tested in the same order as in the memory hub (idempotency, version, key exists / key not found, position mismatch).",
 		NotDecided: "equality of state or stream contents, offsets, and page boundaries (runtime values; Redis is not available).",
-		Rules: map[string]string{"C23.R1": "K6b option-field use: Memory vs Redis", "C23.R2": "K6c+K10 ARGV/KEYS arity of map scripts", "C23.R3": "K10 suppression vocabulary and order"},
+		Rules: map[string]string{"C23.R1": "K6b option-field use: Memory vs Redis", "C23.R2": "K6c+K10 ARGV/KEYS arity of map scripts", "C23.R3": "K10 suppression vocabulary and order", "C23.R4": "K11 sibling templates of the cleanup registration key", "C23.R5": "exhaustiveness: Clear covers every key family"},
 		Run: runC23,
 	})
 }
@@ -483,6 +484,141 @@ func checkScriptArity(c *Ctx, rule string, files []string) {
 	}
 }
 
+// luaReturnArity lists, for every `return { … }` of a script, the number of top-level elements of
+// the table (0 for a non-table return) together with its line.
+func luaReturnArity(sc *luaScript) (tables []int, lines []int, nonTable int) {
+	for _, ev := range sc.Events {
+		if ev.Kind != "return" {
+			continue
+		}
+		if len(ev.Ret) == 0 || ev.Ret[0].Text != "{" {
+			nonTable++
+			continue
+		}
+		depth, n, any := 0, 0, false
+		for _, t := range ev.Ret {
+			switch t.Text {
+			case "{", "(", "[":
+				depth++
+			case "}", ")", "]":
+				depth--
+			case ",":
+				if depth == 1 {
+					n++
+				}
+			default:
+				if depth >= 1 {
+					any = true
+				}
+			}
+			if depth == 0 && t.Text == "}" {
+				break
+			}
+		}
+		if any {
+			n++
+		}
+		tables = append(tables, n)
+		lines = append(lines, ev.Line)
+	}
+	return
+}
+
+// checkReplyUse (R3): a script that can answer with a table (a cached or suppressed outcome) must have
+// its reply read as an array at every call site, and the constant indexes the Go side reads must exist
+// in every table the script returns.
+func checkReplyUse(c *Ctx, rule string, files []string) {
+	w := c.W
+	lua := w.LuaScripts()
+	want := map[string]bool{}
+	for _, f := range files {
+		want[f] = true
+	}
+	for _, s := range w.scriptSites() {
+		for _, n := range s.scripts {
+			sc := lua[n]
+			if !want[n] || sc == nil {
+				continue
+			}
+			tables, _, _ := luaReturnArity(sc)
+			if len(tables) == 0 {
+				continue
+			}
+			minLen := tables[0]
+			for _, t := range tables {
+				if t < minLen {
+					minLen = t
+				}
+			}
+			v := s.call.Value()
+			if v == nil {
+				continue
+			}
+			// how is the RedisResult consumed?
+			asArray := false
+			maxIdx := int64(-1)
+			var visit func(v ssa.Value, depth int)
+			seen := map[ssa.Value]bool{}
+			visit = func(v ssa.Value, depth int) {
+				if v == nil || seen[v] || depth > 8 || v.Referrers() == nil {
+					return
+				}
+				seen[v] = true
+				for _, r := range *v.Referrers() {
+					switch x := r.(type) {
+					case *ssa.Call:
+						if cal := x.Call.StaticCallee(); cal != nil && (cal.Name() == "ToArray" || cal.Name() == "AsStrSlice" || cal.Name() == "ToAny") {
+							asArray = true
+							visit(x, depth+1)
+						}
+					case *ssa.Extract:
+						visit(x, depth+1)
+					case *ssa.Phi:
+						visit(x, depth+1)
+					case *ssa.Store:
+						if al, ok := x.Addr.(*ssa.Alloc); ok && x.Val == v {
+							for _, rr := range *al.Referrers() {
+								if u, ok := rr.(*ssa.UnOp); ok && u.X == al {
+									visit(u, depth+1)
+								}
+							}
+						}
+					case *ssa.IndexAddr:
+						if k, isC := constIntOf(x.Index); isC && k > maxIdx {
+							maxIdx = k
+						}
+					case *ssa.Index:
+						if k, isC := constIntOf(x.Index); isC && k > maxIdx {
+							maxIdx = k
+						}
+					}
+				}
+			}
+			visit(v, 0)
+			c.Check(rule, s.call, n+": the script's table reply (cached / suppressed outcome) is read by the caller", asArray,
+				"the script answers a repeated idempotency key with a table instead of publishing; a caller that looks only at the error reports the duplicate as a fresh, unsuppressed publish with an empty position, while the memory broker reports Suppressed with the cached position")
+			if asArray && maxIdx >= 0 {
+				c.Check(rule, s.call, n+": every reply element the caller always reads exists in every table the script returns", int(maxIdx) < minLen || guardedByLen(s.call, maxIdx),
+					fmt.Sprintf("caller reads element %d, the shortest table the script returns has %d", maxIdx, minLen))
+			}
+		}
+	}
+}
+
+// guardedByLen: the function compares len(replies) against constants, so longer indexes are reads the
+// code makes only after a length test (the detail of which test guards which read is in the bounds rules).
+func guardedByLen(ci ssa.CallInstruction, _ int64) bool {
+	found := false
+	EachInstr(ci.Parent(), func(in ssa.Instruction) {
+		if b, ok := in.(*ssa.BinOp); ok && strings.HasPrefix(D(b.X), "len(") {
+			if _, isC := constIntOf(b.Y); isC {
+				found = true
+			}
+		}
+	})
+	return found
+}
+
 func runC18(c *Ctx) {
 	exceptions := []fieldDiffException{
 		{"PublishOptions", "Offset", "redis", "fan-out transport field: a map broker that fans out through a PUB/SUB broker pre-assigns the position and the Redis broker copies it into the wire publication; the memory broker delivers in-process and no in-repo caller sets it (broker.go documents it as such)"},
@@ -492,6 +628,7 @@ func runC18(c *Ctx) {
 	compareOptionUse(c, "C18.R1", "HistoryOptions", []string{"(*MemoryBroker).History"}, []string{"(*RedisBroker).History"}, exceptions)
 	compareOptionUse(c, "C18.R1", "HistoryFilter", []string{"(*MemoryBroker).History"}, []string{"(*RedisBroker).History"}, exceptions)
 	checkScriptArity(c, "C18.R2", []string{"broker_publish_idempotent.lua", "broker_history_add_list.lua", "broker_history_add_stream.lua", "broker_history_list.lua", "broker_history_stream.lua"})
+	checkReplyUse(c, "C18.R3", []string{"broker_publish_idempotent.lua", "broker_history_add_list.lua", "broker_history_add_stream.lua", "broker_history_list.lua", "broker_history_stream.lua"})
 }
 
 func runC23(c *Ctx) {
@@ -516,6 +653,7 @@ func runC23(c *Ctx) {
 			c.Check("C23.R2", s.call, "add-script call sites pass the same number of KEYS and ARGV", s.nKeys == addSites[0].nKeys && s.nArgs == addSites[0].nArgs, fmt.Sprintf("%d/%d vs %d/%d", s.nKeys, s.nArgs, addSites[0].nKeys, addSites[0].nArgs))
 		}
 	}
+	runC23Keys(c)
 	// R3 vocabulary and order
 	sc := w.LuaScripts()["map_broker_add.lua"]
 	if c.Anchor("C23.R3", "map_broker_add.lua", sc != nil) {
@@ -589,6 +727,75 @@ func runC23(c *Ctx) {
 				"lua: "+strings.Join(luaOrder, " < ")+"; memory: "+strings.Join(memOrder, " < ")+": when two conditions hold at once the brokers would report different reasons")
 		}
 	}
+}
+
+// runC23Keys: (R4) every site that builds a key of the cleanup-registration family puts the same
+// operand into the hash tag as the family's builder does (the registration written by the add script
+// must be the key the cleanup worker scans); (R5) Clear deletes every per-channel key family the
+// broker has a builder for (state left behind — e.g. per-key versions — changes later outcomes, while
+// the memory broker drops the whole channel).
+func runC23Keys(c *Ctx) {
+	w := c.W
+	type site struct {
+		in  ssa.Instruction
+		tag string
+	}
+	var sites []site
+	for _, f := range w.AllFuncs {
+		if !w.inModule(f) || strings.HasSuffix(w.Pos(f.Pos()), "_test.go") {
+			continue
+		}
+		EachInstr(f, func(in ssa.Instruction) {
+			b, ok := in.(*ssa.BinOp)
+			if !ok || b.Op != token.ADD {
+				return
+			}
+			// outermost concatenation only
+			for _, r := range *b.Referrers() {
+				if rb, ok := r.(*ssa.BinOp); ok && rb.Op == token.ADD {
+					return
+				}
+			}
+			parts := concatParts(b, 0)
+			for i, p := range parts {
+				if strings.HasPrefix(p, "\"") && strings.Contains(p, ":cleanup:channels:{") && i+1 < len(parts) {
+					sites = append(sites, site{in, parts[i+1]})
+				}
+			}
+		})
+	}
+	if c.Anchor("C23.R4", "constructions of the cleanup registration key with a hash tag", len(sites) >= 2) {
+		for _, s := range sites {
+			ok := strings.Contains(s.tag, "pubSubPartitionHashTag(")
+			c.Check("C23.R4", s.in, "cleanup registration key is tagged with the partition's hash tag", ok,
+				"the add script registers a channel under …:cleanup:channels:{tag(partition)}; a site that tags with "+s.tag+" names a different key whenever precomputed partition tags are enabled, so the cleanup worker never sees the registration and expired keys are never removed")
+		}
+	}
+	// R5
+	clear := c.Fn("C23.R5", "centrifuge", "(*RedisMapBroker).Clear")
+	bk := w.Func("centrifuge", "(*RedisMapBroker).buildKey")
+	if clear == nil || !c.Anchor("C23.R5", "(*RedisMapBroker).buildKey", bk != nil) {
+		return
+	}
+	n := 0
+	for _, f := range w.AllFuncs {
+		if !w.inModule(f) || f.Signature.Recv() == nil || typeShort(f.Signature.Recv().Type()) != "RedisMapBroker" || f == bk {
+			continue
+		}
+		calls := CallsIn(f, false, w.calleeFn(bk))
+		if len(calls) != 1 || len(f.Blocks) != 1 {
+			continue
+		}
+		infix, isC := constStrOf(calls[0].Common().Args[3])
+		if !isC {
+			continue
+		}
+		n++
+		used := len(CallsIn(clear, true, w.calleeFn(f))) > 0
+		c.CheckAt("C23.R5", "(*centrifuge.RedisMapBroker).Clear deletes the "+infix+" key family ("+f.Name()+")", w.Pos(clear.Pos()), used,
+			"Clear must leave nothing of the channel behind: the memory broker drops the whole channel, so a surviving key family (per-key versions, order index, expiry index) makes the next operations diverge")
+	}
+	c.Anchor("C23.R5", "per-channel key family builders of the Redis map broker", n >= 5)
 }
 
 func looksLikeReason(s string) bool {
